@@ -374,7 +374,7 @@ class Scales(Stream):
     mods = ["Model.Pitch"]
     checker = "check_pitch_lists"
     pair = "Chord.scale_pitches <-> Pitch.chord_scale (with the rotation oracle)"
-    quick, thorough = 860, 860
+    quick, thorough = 920, 920
 
     def gen(self, rng, n):
         for md in MODES:
@@ -391,9 +391,21 @@ class Scales(Stream):
                 yield {"chord": {"elem": e, "fig": rng.choice(["", "6", "64"]), "tdeg": 0, "tmode": "M", "toct": 0, "coct": co, "ton_none": True}}
                 yield {"chord": {"elem": e, "fig": rng.choice(["", "64", "6"]), "tdeg": rng.randrange(12), "tmode": rng.choice(MODES),
                                  "toct": rng.choice([-1, 0, 1]), "coct": co}}
+                # ... and the same kind of chord reached by Chord.modulate(key) / chord % key from the degree in the neutral key
+                for via in ("modulate", "%"):
+                    yield {"chord": {"elem": e, "fig": rng.choice(["", "64", "6", "7"]), "tdeg": rng.randrange(12), "tmode": rng.choice(MODES),
+                                     "toct": rng.choice([-1, 0, 1]), "coct": co}, "via": via}
 
     def impl(self, case):
         ch = mlang.mk_chord(case["chord"])
+        c = case["chord"]
+        if case.get("via") and not c.get("ton_none"):
+            # the same chord reached through the named method / the operator: the degree (with its own octave) in the neutral key of the
+            # mode, then modulated to the key - the chord's octave and the key's add up whichever of the two holds them afterwards
+            from musiclang import Chord, Tonality
+            base = Chord(c["elem"], extension=mlang.ext_string(c["fig"]), tonality=Tonality(0, c["tmode"], 0), octave=c["coct"])
+            key = Tonality(c["tdeg"], c["tmode"], c["toct"])
+            ch = base.modulate(key) if case["via"] == "modulate" else base % key
         return [[int(x) for x in ch.scale_pitches], [int(x) for x in ch.chord_pitches],
                 [int(x) for x in ch.chord_extension_pitches]]
 
